@@ -19,7 +19,7 @@ import warnings
 from mc import fault
 import typhon.files.fileset as tff
 from typhon.files import FileSet
-from typhon.files.handlers.common import FileInfo
+from typhon.files.handlers.common import FileHandler, FileInfo
 
 from checks import c15_model as M
 
@@ -277,6 +277,7 @@ class World:
         self.root = root = os.path.join(
             root, "r" * (self.ROOT_LENGTH - len(root) - 1))
         self.template, self.pool = M.CONFIGS[config]
+        self.handled = M.HANDLED.get(config)
         for d in ("data", "store", "scratch"):
             path = os.path.join(root, d)
             shutil.rmtree(path, ignore_errors=True)
@@ -325,8 +326,16 @@ class World:
             f.write(data)
 
     def fileset(self, info_cache=None):
+        options = {}
+        if self.handled:
+            info_via, table = self.handled
+
+            def info(file_info):
+                t0, t1, attrs = table[os.path.basename(file_info.path)]
+                return FileInfo(file_info.path, [t0, t1], dict(attrs))
+            options = dict(info_via=info_via, handler=FileHandler(info=info))
         return FileSet(os.path.join(self.data, self.template), name="c15",
-                       info_cache=info_cache)
+                       info_cache=info_cache, **options)
 
     def construct(self, cache):
         """-> (exception or None, warning messages, FileSet or None)"""
